@@ -274,11 +274,11 @@ PROPS.update({
                 "elements; reject/return lines pushed into every text array; every amount shifted by 1, 0.5 and set to 0; plus random pairs "
                 "of those and random structural mutations. Each mutant that still deserialises is validated by the real "
                 "validate_network_rules(false); the error-code list is compared with the Lean rule model evaluated on the same JSON "
-                "(26 of 30 types modelled: 17 with rules, 9 without any rule). Non-trivial = non-empty error list; distinct = (type, code list). "
+                "(all 30 types modelled: 21 with rules, 9 without any rule); multi-site charge assignments (71F / 71G in every sequence-B occurrence and at settlement level, each absent / USD / EUR) for MT103/104/107. Non-trivial = non-empty error list; distinct = (type, code list). "
                 "The evidence tallies every (type, code) pair that was triggered.",
-        "modelled": "rule functions of MT110, 192, 196, 200, 202, 204, 205, 210, 292, 296, 910, 920, 935, 940, 941, 942, 950 (46 rules) over views "
-                    "read through the regenerated struct declarations (T3s) and aggregated by the regenerated stage lists (T6); the 9 types "
-                    "without rules; NOT yet modelled: MT101, 103, 104, 107 (49 rules) - exercised by this stream's generator and the C13 oracle only",
+        "modelled": "rule functions of all 21 types that have rules (MT101, 103, 104, 107, 110, 192, 196, 200, 202, 204, 205, 210, 292, 296, 910, 920, 935, "
+                    "940, 941, 942, 950: 95 rules) over views read through the regenerated struct declarations (T3s), constant tables (T5r) and "
+                    "aggregated by the regenerated stage lists (T6); the 9 types without rules",
         "trusted_base": [KERNEL, TRANSLATOR, HARNESS,
                          "hand models SwiftMT/Rules.lean of the rule functions (modelled, not verified; every generated mutant is compared)",
                          "the documented side of each rule is stated in the theorem statements of Props/C04.lean (my reading of the rule's doc comment / SR2025)"],
